@@ -7,6 +7,7 @@ import D2P.Props.C02Notes
 import D2P.Props.C02Deep
 import D2P.Props.C02DeepCells
 import D2P.Props.C02Post
+import D2P.Props.C05Post
 /-!
 # Open findings, as kernel-checked witnesses
 
@@ -182,6 +183,30 @@ theorem post_witness :
     -- `C02_post_part_dup`: no cell of `tblDoc` continues a vertical merge; with duplication ON the span's copy carries no identity
     vfree tblDoc = true ∧
     (match newDepthCollector cfgDup [] tblDoc with | .ok dc => elemsOf (leafParsL dc.root) | .error _ => []) = [1, 14, 24, 30, 43, 50] := by
+  decide +kernel
+
+/-- a styled paragraph in a table cell and a styled paragraph outside every table -/
+def styDoc : Xml :=
+  el 0 "body" [] none [
+    tbl 10 [tr 11 [tc 12 [] [el 90 "p" [] none [el 91 "pPr" [] none [el 92 "pStyle" [wattr "val" "Heading1"] none []], r 93 [t 94 "h"]]]]],
+    el 100 "p" [] none [el 101 "pPr" [] none [el 102 "pStyle" [wattr "val" "Title"] none []], r 103 [t 104 "t"]]]
+
+/-- `C05_post_part` on concrete parts: identity, style id and "is the table lineage" of every record with an identity —
+a styled paragraph in a cell and one outside (duplication on); the nested table and the text-box document of `post_witness`:
+paragraph 64 stands in a cell of a table inside a text box and reports the table lineage, the text-box paragraph 9 and the
+paragraph 1 that encloses it do not -/
+theorem C05_post_witness :
+    (match newDepthCollector cfgDup [] styDoc with
+      | .ok dc => (metaL dc.root).map (fun (m : Meta) => (m.1, m.2.1 == lit "Heading1", m.2.1 == lit "Title", m.2.2 == tableLineage)) | .error _ => [])
+      = [(90, true, false, true), (100, false, true, false)] ∧
+    vfree styDoc = true ∧
+    (match newDepthCollector cfgDup [] tblDoc with
+      | .ok dc => (metaL dc.root).map (fun (m : Meta) => (m.1, m.2.2 == tableLineage)) | .error _ => [])
+      = [(1, false), (14, true), (24, true), (30, true), (43, true), (50, false)] ∧
+    (postX false tblDoc).map (fun yc => (yc.1.id?, yc.2)) = [(some 1, false), (some 14, true), (some 24, true), (some 30, true), (some 43, true), (some 50, false)] ∧
+    (match newDepthCollector cfgNoDup [] nestDoc with
+      | .ok dc => (metaL dc.root).map (fun (m : Meta) => (m.1, m.2.2 == tableLineage)) | .error _ => [])
+      = [(9, false), (64, true), (1, false), (20, false)] := by
   decide +kernel
 
 end D2P.Ex
